@@ -11,7 +11,7 @@ for p in props:
     pid = p["id"]
     hs = [h for h in registry.HARNESSES if h["prop"] == pid]
     c = claims.CLAIMS.get(pid)
-    if not hs or not c:
+    if not hs or not c or pid in getattr(claims, 'HOLD', set()):
         na.append({"property_id": pid, "reason": claims.NOT_CLAIMED.get(pid, "check not built yet (construction in progress, see DESIGN.md section 10)")})
         continue
     checks.append({
